@@ -7,9 +7,10 @@
  *   h_sort_cmp    the comparator handed to hsort dereferences both slots and forwards to
  *                 secp256k1_ec_pubkey_cmp with the context passed as cmp_data (real code, ec_pubkey_cmp
  *                 itself is C04.pubkey_cmp).
- *   h_hsort_body  the REAL secp256k1_hsort / heap_down / heap_swap on count <= 6 elements of stride 8 with
+ *   h_hsort_body  the REAL secp256k1_hsort / heap_down / heap_swap on count <= HS_MAX elements of stride 8 with
  *                 a total order: output sorted (adjacent pair at a ghost index) and a permutation of the
- *                 input (multiplicity of a ghost value preserved).  BOUNDED stand-in: count <= 6. */
+ *                 input (multiplicity of a ghost value preserved).  BOUNDED stand-in: count <= HS_MAX
+ *                 (5 in the quick tier: 70 s; 6 in the thorough tier: cost grows ~8x per element). */
 #include "assumed_C04.h"
 #include "spec.h"
 #ifdef U_SORT_CMP
@@ -22,8 +23,6 @@ __CPROVER_ensures(g_cmp_n == __CPROVER_old(g_cmp_n) + 1 && g_cmp_ctx == ctx && g
 #endif
 #include "src/secp256k1.c"
 #include "post.h"
-
-size_t verif_c04_gi;   /* ghost index named by the loop invariant in ec_pubkey_sort; never assigned by code */
 
 #ifdef U_SORT_API
 void h_sort_api(void) {
@@ -80,18 +79,21 @@ static int cmp_u64(const void *a, const void *b, void *data) {
 void h_hsort_body(void) {
     INPUT_ARR(uint64_t, a, 6); INPUT(size_t, n); INPUT(size_t, gi); INPUT(uint64_t, gv);
     uint64_t a0[6]; size_t i; int c0 = 0, c1 = 0;
-    __CPROVER_assume(n <= 6);
+    __CPROVER_assume(n <= HS_MAX);
     memcpy(a0, a, sizeof(a));
     /* one call per concrete count: keeps the heap indices concrete for the symbolic executor */
     switch (n) {
 #define RUN(N) case N: secp256k1_hsort(a, N, sizeof(a[0]), cmp_u64, NULL); break;
-    RUN(0) RUN(1) RUN(2) RUN(3) RUN(4) RUN(5) RUN(6)
+    RUN(0) RUN(1) RUN(2) RUN(3) RUN(4) RUN(5)
+#if HS_MAX >= 6
+    RUN(6)
+#endif
     }
     if (gi < 5 && gi + 1 < n) __CPROVER_assert(a[gi] <= a[gi + 1], "C04 hsort_body: output is sorted (every adjacent pair in order)");
     for (i = 0; i < 6; i++) { if (i < n && a0[i] == gv) c0++; if (i < n && a[i] == gv) c1++; }
     __CPROVER_assert(c0 == c1, "C04 hsort_body: output is a permutation of the input (multiplicity of every value preserved)");
     for (i = 0; i < 6; i++) if (i >= n) __CPROVER_assert(a[i] == a0[i], "C04 hsort_body: elements beyond count are untouched");
-    if (n == 6 && a0[0] > a0[5] && a0[2] == a0[3]) REACH("hsort_body six elements with duplicates");
+    if (n == HS_MAX && a0[0] > a0[HS_MAX - 1] && a0[2] == a0[3]) REACH("hsort_body longest list, with duplicates");
     if (n == 0) REACH("hsort_body empty");
 }
 #endif
